@@ -365,6 +365,31 @@ CHECKS['C20'] = dict(
     assumptions=['requests reach the handlers as the protobuf decoder would deliver them (wire round trip)', 'authenticated identity injected through the interceptor context key'],
 )
 
+# ---- the end-to-end part -------------------------------------------------------------------------
+# The same generator runs for each of these properties; VERIF_PROPERTY selects which kinds of
+# violation a run reports (every kind belongs to exactly one property, see harness/e2e propertyOf).
+E2E_KINDS = {
+    'C01': 'a released attestation that is slashable against an earlier release',
+    'C02': 'a released proposal at or below an earlier released slot',
+    'C03': 'a slashable release after the daemon was killed or terminated and restarted',
+    'C05': 'a generic signature under the attester/proposer type, a protected endpoint signing another type, an exit signed for a non-administrator address',
+    'C06': 'a response whose state and signature disagree',
+    'C07': 'a signature for a (client, account, operation) the configured permissions refuse',
+    'C08': 'a signature that does not verify under the addressed account over the submitted data, or a batch answer of the wrong length',
+    'C09': 'a permitted, well-formed, advancing duty that is not signed (in batches: when every entry is authorised)',
+    'C18': 'a listing that is not exactly the accessible accounts of the requested wallets',
+    'C19': 'a signature or account information for a caller with no certificate or one from another authority',
+    'C20': 'the daemon process dying',
+}
+for _pid, _what in E2E_KINDS.items():
+    _c = CHECKS[_pid]
+    _c['parts'].append(part('TestE2E', 25, 300, qshards=2, tshards=8, pkg='e2e', needs_dirk=True))
+    _c['technique'] += ('; plus an end-to-end part: rapid-generated histories against the real dirk binary started from a generated configuration file '
+                        '(permissions, administrator addresses, filesystem wallets, certificates), driven over gRPC with mutual TLS, with SIGKILL/SIGTERM restarts')
+    _c['rule'] += ('; end-to-end cases (3-12 steps against one daemon) are non-trivial iff the daemon both released and refused something; here that part reports: ' + _what)
+    _c['essential'] = list(_c['essential']) + ['e2e:signatures-released-by-the-daemon', 'e2e:requests-refused-by-the-daemon', 'e2e:daemon-restarts']
+    _c['assumptions'] = list(_c['assumptions']) + ['end-to-end part: every client\'s permission entries cover disjoint accounts, because the configuration file is a map and does not fix their order']
+
 ENGINES = [
     dict(name='rapid-harness', path='/verif/harness', kind_free_text='Go test module (pgregory.net/rapid v1.3.0) compiled against /repo with -tags verif; driver /verif/check shards by seed, merges coverage, writes evidence',
          serves_properties=sorted(CHECKS)),
